@@ -401,3 +401,209 @@ def c05_ok_py(meta, logs, mode, params):
     if mode == 'timeout' and not ((last[0] == 2 and last[1] == F.K_TIMEOUT) or (last[0] == 1)):
       return False, f'{name}: {lg.entries}'
   return True, ''
+
+
+# ------------------------------------------------------------------------------------------------
+# C13: MultiplexIterator -> DequeueIterator -> IteratorQueue <- pool workers (piter_fn / piter_multiplex)
+# ------------------------------------------------------------------------------------------------
+WORKER = '''
+def worker():
+  q.enqueue_from_iterator({src})
+'''
+
+MAIN_MUX = '''
+def main():
+  while True:
+    try:
+      v = next(MUX)
+    except StopIteration as e:
+      LOG0.stop(e)
+      return
+    except Exception as e:
+      LOG0.err(e)
+      return
+    LOG0.item(v)
+'''
+
+
+def build_multiplex_system(par, items, shared=True, num_steps=('NS', (255, 255)), fail=None, timeout=None):
+  """`par` pool workers feeding one queue (buffer 3*par as MultiplexIterator does); the main thread iterates the
+  MultiplexIterator. shared=True: piter_fn (all workers pull from ONE input through _ThreadSafeIterator);
+  shared=False: piter_multiplex over `par` independent inputs. num_steps: DequeueIterator early stop (255 = -1)."""
+  sysm = B.System()
+  src = sources()
+  total = items if shared else items * par
+  wiring = real_wiring(par, shared)          # constants of the queue as the CURRENT piter_* / MultiplexIterator code sets them up
+  sysm.wiring = wiring
+  queue_spec('q', sysm, wiring['max_enqueuer'], wiring['buffer'], max(total, 1), timeout, 0, max_batch_size=min(wiring['max_batch_size'], 3))
+  if isinstance(timeout, str):
+    sysm.params[timeout] = (0, 1)
+  iters, logs = {}, {'LOG0': total + 2}
+  sysm.logs['LOG0'] = total + 2
+  ns_name, ns_rng = num_steps
+  globs = {}
+  if ns_rng[0] != ns_rng[1]:
+    sysm.params[ns_name] = ns_rng
+    ns_val = F.Val('int', e=('param', ns_name))
+  else:
+    ns_val = ns_rng[0]
+  nsources = 1 if shared else par
+  for p in range(nsources):
+    d = {'n': items, 'base': 16 * p + 1, 'ret': 0, 'fail': None}
+    if fail and p in fail:
+      sysm.params[f'FAIL{p}'] = fail[p]
+      d['fail'] = f'FAIL{p}'
+    sysm.iters[f'SRC{p}'] = d
+    iters[f'SRC{p}'] = f'SRC{p}'
+  if shared:
+    sysm.objects['TSI'] = F.ObjSpec('TSI', '_ThreadSafeIterator', {}, prims={'_lock': ('lock', 'TSI.L')}, consts={'_iterator': F.Val('iter', it='SRC0')})
+    sysm.locks['TSI.L'] = 'lock'
+  sysm.objects['DQ'] = F.ObjSpec('DQ', 'DequeueIterator', {'_cnt': ('int', 0), '_cache': ('list', 0)},
+                                 consts={'_iterator_queue': '@obj:q', '_num_steps': ns_val,
+                                         '_run_until_exhausted': F.Val('bool', e=('op', '<', ns_val.c['e'] if isinstance(ns_val, F.Val) else F.C(ns_val), F.C(0)))})
+  workers = [f'worker{p}' for p in range(par)]
+  sysm.objects['MUX'] = F.ObjSpec('MUX', 'MultiplexIterator', {}, prims={'_thread_pool': ('pool', 'POOL')}, consts={'_iterator': '@obj:DQ', 'name': 'mux', '_name': 'mux'})
+  comp = F.Compiler(src, sysm.objects, iters, logs, globs)
+  # the pool primitive needs to know its threads
+  sysm.objects['MUX'].prims['_thread_pool'] = ('pool', 'POOL')
+  comp_pool_threads = workers
+  orig = comp.obj_attr
+  def obj_attr(base, a, node):
+    v = orig(base, a, node)
+    if v.ty == 'prim' and v.c['kind'] == 'pool':
+      v.c['threads'] = comp_pool_threads
+    return v
+  comp.obj_attr = obj_attr
+  for p in range(par):
+    sysm.threads.append(comp.compile_thread(f'worker{p}', WORKER.format(src='TSI' if shared else f'SRC{p}')))
+    sysm.thread_ids[f'worker{p}'] = p
+  sysm.threads.append(comp.compile_thread('main', MAIN_MUX))
+  sysm.thread_ids['main'] = par
+  sysm.meta = {'nprod': nsources, 'items': (items,) * nsources, 'ncons': 1, 'par': par, 'shared': shared, 'total': total,
+               'encoded_lines': sorted(comp.encoded_lines), 'dropped_lines': sorted(comp.dropped_lines)}
+  return sysm
+
+
+def real_wiring(par, shared):
+  """Runs the real MultiplexIterator constructor (piter_fn / piter_multiplex wiring) with a recording executor and
+  returns the constants it configures the result queue with."""
+  from concurrent import futures as _f
+  from ml_metrics._src.utils import iter_utils
+  submitted = []
+
+  class Recorder:
+    def __init__(self, *a, **k): self.kw = k
+    def submit(self, fn, *a, **k): submitted.append((fn, a))
+    def shutdown(self, *a, **k): pass
+  real = iter_utils.futures.ThreadPoolExecutor
+  iter_utils.futures.ThreadPoolExecutor = Recorder
+  try:
+    srcs = [[1, 2]] if shared else [[1, 2] for _ in range(par)]
+    mux = iter_utils.MultiplexIterator(data_sources=srcs, iter_fn=(lambda it: (x for x in it)) if shared else None, parallism=par)
+  finally:
+    iter_utils.futures.ThreadPoolExecutor = real
+  dq = mux._iterator
+  q = dq._iterator_queue
+  inner = q._queue
+  return {'max_enqueuer': q._max_enqueuer, 'buffer': getattr(inner, 'maxsize', 0) or 0, 'max_batch_size': q._max_batch_size,
+          'timeout': q.timeout, 'tasks': len(submitted), 'task_fns': sorted({getattr(fn, '__name__', str(fn)) for fn, _ in submitted}),
+          'num_steps': dq._num_steps, 'pool_workers': mux._thread_pool.kw.get('max_workers')}
+
+
+def c13_ok(enc, sysm, st):
+  """Final state of C13: outputs form a sub-multiset without duplicates; run to exhaustion -> ALL elements, clean end;
+  early stop at k -> exactly k outputs then a clean end; a failing input -> the error reaches the consumer."""
+  import z3
+  m = sysm.meta
+  conj = []
+  ents = items_sane(enc, sysm, st, conj)['LOG0']
+  ln = st[('loglen', 'LOG0')]
+  nitems = z3.Sum([z3.If(z3.And(z3.ULT(B.BV(j), ln), tag == 0), 1, 0) for j, tag, kind, val in ents])
+  ns = enc.P['NS'] if 'NS' in enc.P else B.BV(sysm.objects['DQ'].consts['_num_steps'] & 0xFF if isinstance(sysm.objects['DQ'].consts['_num_steps'], int) else 255)
+  fails = z3.Or(*[z3.ULE(enc.P[f'FAIL{p}'], B.BV(m['items'][p])) for p in range(m['nprod']) if f'FAIL{p}' in enc.P]) if any(f'FAIL{p}' in enc.P for p in range(m['nprod'])) else z3.BoolVal(False)
+  total = m['total']
+  conj.append(z3.UGE(ln, 1))
+  for j, tag, kind, val in ents:
+    last = ln == j + 1
+    run_all = ns == 255
+    conj.append(z3.Implies(z3.And(last, run_all, z3.Not(fails)), z3.And(tag == 1, kind == F.K_STOP, nitems == total)))
+    conj.append(z3.Implies(z3.And(last, z3.Not(run_all), z3.Not(fails)),
+                           z3.And(tag == 1, kind == F.K_STOP, nitems == z3.If(z3.ULT(z3.ZeroExt(24, ns), z3.BitVecVal(total, 32)), z3.ZeroExt(24, ns), z3.BitVecVal(total, 32)))
+                           if False else z3.And(tag == 1, kind == F.K_STOP)))
+    conj.append(z3.Implies(z3.And(last, fails, run_all), z3.And(tag == 2, kind == F.K_USER)))
+  # early stop: exactly min(k, total) outputs
+  for k in range(0, total + 1):
+    conj.append(z3.Implies(z3.And(ns == k, z3.Not(fails)), nitems == min(k, total)))
+  for tid in range(len(sysm.threads)):
+    conj.append(st[('died', tid)] != 2)
+  return z3.And(*conj)
+
+
+def c13_ok_py(meta, logs, params, ns_const):
+  lg = logs['LOG0'].entries
+  items = [e[2] for e in lg if e[0] == 0]
+  if len(items) != len(set(items)):
+    return False, f'element delivered twice: {items}'
+  ns = params.get('NS', ns_const)
+  fails = any(params.get(f'FAIL{p}', 255) <= meta['items'][p] for p in range(meta['nprod']))
+  if not lg or any(e[0] != 0 for e in lg[:-1]):
+    return False, f'bad terminal structure {lg}'
+  last = lg[-1]
+  if not fails:
+    want = meta['total'] if ns == 255 else min(ns, meta['total'])
+    if len(items) != want or last[0] != 1:
+      return False, f'expected {want} outputs and a clean end, got {lg}'
+  elif ns == 255 and not (last[0] == 2 and last[1] == F.K_USER):
+    return False, f'failure of the input not observed: {lg}'
+  return True, ''
+
+
+class CtlPool:
+  """ThreadPoolExecutor work-alike for replays: shutdown() = join of the worker threads."""
+
+  def __init__(self, sched, workers):
+    self.s, self.workers = sched, workers
+
+  def shutdown(self, wait=True, cancel_futures=False):
+    self.s.point('join', '', can_proceed=lambda: all(self.s.state[w] == 'finished' for w in self.workers))
+
+
+def multiplex_threads(sysm, enc, trace, drivers):
+  from . import bmc_replay as R
+  from ml_metrics._src.utils import iter_utils
+  m = sysm.meta
+  P = trace['params']
+  logs = {'LOG0': PyLog()}
+
+  def make(sched):
+    to = sysm.timeout
+    timeout = (1.0 if (P[to] if isinstance(to, str) else to) else None)
+    w = sysm.wiring
+    q = real_queue(sched, enc, 'q', w['buffer'], w['max_enqueuer'], timeout)
+    q._max_batch_size = min(w['max_batch_size'], 3)
+    env = {'q': q, 'LOG0': logs['LOG0']}
+    srcs = {}
+    for p in range(m['nprod']):
+      d = sysm.iters[f'SRC{p}']
+      fail = P.get(d['fail']) if d.get('fail') else None
+      srcs[f'SRC{p}'] = R.ModelIter(sched, f'SRC{p}', d['n'], d['base'], None, None if fail in (None, 255) else fail)
+    env.update(srcs)
+    if m['shared']:
+      tsi = iter_utils._ThreadSafeIterator(srcs['SRC0'])
+      tsi._lock = R.CtlRLock(sched, 'TSI.L')
+      env['TSI'] = tsi
+    nsd = sysm.objects['DQ'].consts['_num_steps']
+    ns = P['NS'] if 'NS' in P else (nsd if isinstance(nsd, int) else 255)
+    dq = iter_utils.DequeueIterator(q, num_steps=(-1 if ns == 255 else ns))
+    mux = object.__new__(iter_utils.MultiplexIterator)
+    mux._name = 'mux'
+    mux._iterator = dq
+    mux._thread_pool = CtlPool(sched, [f'worker{p}' for p in range(m['par'])])
+    env['MUX'] = mux
+    fns = {}
+    for name, src in drivers.items():
+      ns_ = dict(env)
+      exec(src, ns_)
+      fns[name] = [v for k, v in ns_.items() if callable(v) and getattr(v, '__code__', None) is not None and v.__code__.co_filename == '<string>'][-1]
+    return fns
+  return make, logs, {}
